@@ -681,6 +681,34 @@ func genCore(prop string, seed uint64, tier string, g genCfg) *Scenario {
 		}
 		body.Clients = append(body.Clients, cs)
 	}
+	if g.pipelines || g.profile == "values-serial" {
+		// INCR operands of other lengths than 8 bytes (the server reads up to 8 little-endian bytes of whatever
+		// is there): a draw stream of its own, so that the requests generated above stay what they were
+		rs := ssched.Sub(seed, "incrlen")
+		var short func(d *DataSpec)
+		short = func(d *DataSpec) {
+			if d == nil {
+				return
+			}
+			if d.Op == "incr" && rs.Intn(3) == 0 {
+				d.Short = []int{1, 2, 3, 4, 7, 12}[rs.Intn(6)]
+				if d.Num < 0 {
+					d.Num = -d.Num
+				}
+			}
+			for i := range d.Pipe {
+				short(&d.Pipe[i])
+			}
+		}
+		for ci := range body.Clients {
+			if body.Clients[ci].Kind == "text" { // a text command line carries the number itself
+				continue
+			}
+			for oi := range body.Clients[ci].Ops {
+				short(body.Clients[ci].Ops[oi].Data)
+			}
+		}
+	}
 	raw, _ := json.Marshal(body)
 	sc := &Scenario{Knobs: genKnobs(r), Sched: genSched(r, seed), Body: raw, MaxSimS: 4*maxE + 700}
 	if g.shortDrain {
